@@ -9,6 +9,7 @@ mod optval;
 mod registry;
 #[cfg(feature = "std")]
 mod server;
+mod splice;
 mod util;
 mod views;
 mod wire;
@@ -29,6 +30,7 @@ fn main() {
         ("replay", "registry") => registry::replay_registry(&args),
         #[cfg(feature = "std")]
         ("replay", "blockvalue") => blockval::replay_blockvalue(&args),
+        ("replay", "splice") => splice::replay_splice(&args),
         ("replay", "optval") => optval::replay_optval(&args),
         ("rec", "optval") => optval::rec_optval(&args),
         ("replay", "observe") => observe::replay_observe(&args),
